@@ -108,3 +108,5 @@ func wsDesc(ws *model.WS) string {
 	syn := ws.Main().Syntax
 	return fmt.Sprintf("base %s + [%s]", syn, strings.Join(ws.Notes, ", "))
 }
+
+func stringsReader(s string) *strings.Reader { return strings.NewReader(s) }
